@@ -334,6 +334,9 @@ func checkC19(c *Ctx) (string, bool, []string) {
 		case "select-few-dbs":
 			opt = gen.Opts{SubqDepth: 5, SubqProb: 0.5, MaxDepth: 1, FewDBs: true, SubqInto: 0.3}
 			mask = -1
+		case "select-odd-names":
+			opt = gen.Opts{SubqDepth: 5, SubqProb: 0.5, MaxDepth: 1, Hostile: true}
+			mask = -1
 		}
 		gc := genCase(c.Seed, replayStr(c, "label"), replayInt(c, "idx"), kind, mask, opt, layout)
 		c19One(c, gc, replayStr(c, "sub"), map[string]int64{})
@@ -367,6 +370,12 @@ func checkC19(c *Ctx) (string, bool, []string) {
 			opt.FewDBs, opt.SubqInto = true, 0.3
 			sub = "select-few-dbs"
 			local["few-dbs"]++
+		} else if i%8 == 1 {
+			// names that need quoting, empty names, names the storage engine
+			// reserves for its system sources (_series, _fieldKeys, ...)
+			opt.Hostile = true
+			sub = "select-odd-names"
+			local["odd-names"]++
 		}
 		gc := genCase(c.Seed, "c19.select", i, selKinds[i%2], -1, opt, "random")
 		c19One(c, gc, sub, local)
